@@ -33,6 +33,11 @@ type rlScen struct {
 		P []int `json:"p"`
 		K []int `json:"k"`
 	} `json:"rl"` // model's final list (conformance figure only)
+	// index bit size (default 8). The model's bucket is fixed and its stored key is the key; the real key is
+	// bits/8 fixed bytes + the model key, and for a bit size that is not a multiple of 8 the first key symbol (< 16)
+	// is the HIGH nibble of the partly consumed byte, whose low nibble belongs to the bucket: all keys share the
+	// bucket, and the stored keys are an order- and prefix-preserving image of the model keys.
+	Bits int `json:"bits"`
 }
 
 const rlBucketByte = 7
@@ -72,8 +77,25 @@ func runReclist(args []string) error {
 	return err
 }
 
-func rlKey(k []int) []byte {
-	return append([]byte{rlBucketByte}, core.Bytes(k)...)
+var rlFixed = []byte{rlBucketByte, 9, 3}
+
+func rlKeyBits(k []int, bits int) []byte {
+	key := append([]byte{}, rlFixed[:bits/8]...)
+	kb := core.Bytes(k)
+	if bits%8 != 0 {
+		kb[0] = kb[0]<<4 | 5
+	}
+	return append(key, kb...)
+}
+
+// rlDecode maps a stored key back to model symbols
+func rlDecode(p []byte, bits int) []byte {
+	if bits%8 == 0 || len(p) == 0 || p[0]&0xf != 5 {
+		return p
+	}
+	q := append([]byte{}, p...)
+	q[0] >>= 4
+	return q
 }
 
 func reclistOne(dir string, tr *core.Tracer, sc *rlScen) (bool, error) {
@@ -82,9 +104,14 @@ func reclistOne(dir string, tr *core.Tracer, sc *rlScen) (bool, error) {
 		return false, err
 	}
 	defer os.RemoveAll(d)
+	bits := sc.Bits
+	if bits == 0 {
+		bits = 8
+	}
+	rlKey := func(k []int) []byte { return rlKeyBits(k, bits) }
 	prim := inmemory.New(nil)
 	fc := filecache.New(8)
-	idx, err := index.Open(context.Background(), filepath.Join(d, "idx"), prim, 8, 1024, 0, 0, fc)
+	idx, err := index.Open(context.Background(), filepath.Join(d, "idx"), prim, uint8(bits), 1024, 0, 0, fc)
 	if err != nil {
 		return false, err
 	}
@@ -97,7 +124,7 @@ func reclistOne(dir string, tr *core.Tracer, sc *rlScen) (bool, error) {
 		}
 		lst := make([]any, 0, len(recs))
 		for _, r := range recs {
-			lst = append(lst, map[string]any{"p": core.Ints(r.Key), "loc": int(r.Block.Offset)})
+			lst = append(lst, map[string]any{"p": core.Ints(rlDecode(r.Key, bits)), "loc": int(r.Block.Offset)})
 		}
 		gets := make([]any, 0, len(sc.Keys))
 		for _, k := range sc.Keys {
@@ -160,7 +187,7 @@ func reclistOne(dir string, tr *core.Tracer, sc *rlScen) (bool, error) {
 		return false, nil
 	}
 	for i, r := range last {
-		if string(r.Key) != string(core.Bytes(sc.Rl[i].P)) {
+		if string(rlDecode(r.Key, bits)) != string(core.Bytes(sc.Rl[i].P)) {
 			return false, nil
 		}
 		fk, _, err := prim.Get(types.Block{Offset: r.Block.Offset})
